@@ -109,6 +109,9 @@ def _worker(args):
                 variants.append(("respelled", gram.spell(toks, rng, trivia=True, case=True)))
             if any(t[1] == "END_IF" for t in toks):
                 variants.append(("endif-nosemi", gram.spell(toks, rng, drop_endif_semi=True)))
+            cs = gram.spell(toks, compact=True)
+            if cs[0] != variants[0][1][0]:
+                variants.append(("compact", cs))
         if mode == "c10":
             # the renderer's own layout ('a [ 1 ]') differs from how people write ('a[1]'): both spellings must round-trip
             cs = gram.spell(toks, compact=True)
@@ -173,8 +176,14 @@ def _judge(mode, d, vn, text, spans, r, canon):
             canon[key] = r
             return None
         base = canon.get(key)
-        if base is None or not base.get("ok"):
-            return None       # canonical spelling itself is rejected: C01's business
+        if base is None:
+            return None
+        if not base.get("ok"):
+            # the canonical spelling is rejected (C01's business why) - then every other spelling must be rejected too:
+            # whether a text is accepted does not depend on its layout or letter case either
+            if r.get("ok"):
+                return ("canonical-rejected-but-respelled-accepted", {"diag": base.get("diag")})
+            return None
         if not r.get("ok"):
             return ("respelled-rejected", {"diag": r.get("diag")})
         try:
